@@ -45,6 +45,7 @@ LEVEL = {
 }
 LEVEL["decided"] += ' (R09.10) every history of next / close operations on 2-3 children over up to 3 items (object model, 1700 operations) equals itertools.tee per child; R09.5 is read off the evaluated construction.'
 LEVEL["decided"] += " (R09.11) no value an item could have is read as 'the source is exhausted' (R01.7, shared); a pull through anext(source, default) is recognised as the pull site."
+LEVEL["decided"] += ' (R09.12) a child leaves its loop only after the StopAsyncIteration of its own pull (decided on paths, with boolean flags tracked).'
 LEVEL["technique"] += '; operation histories of the evaluated tee (object model with generator frames) against the executed itertools.tee'
 
 SUSPEND = ("await", "yield", "pull", "enter", "exit_cm")
